@@ -242,6 +242,9 @@ class Schema(object):
 
 def print_prim(t, v):
     """t = ['p', name, attrs]"""
+    from vf.ref.special import Raw
+    if isinstance(v, Raw):
+        return v.text
     if t[0] == 'e':
         return v
     name = t[1]
@@ -352,6 +355,7 @@ class Codec(object):
     def __init__(self, schema, built):
         self.s = schema
         self.b = built
+        self.lenient = False    # True: spell documents that violate occurrence constraints (C05)
 
     def class_q(self, cname):
         c = self.b.cdefs[cname]
@@ -364,13 +368,14 @@ class Codec(object):
     def emit(self, parent, decl, t, v):
         """append the denotation of v (spec type t) for particle decl to parent"""
         if t[0] in ('p', 'c', 'e') and _multi(t):
-            if v is None:
+            from vf.ref import special
+            if v is None or v is special.Absent:
                 vs = []
             else:
                 vs = list(v)
             if decl.max is not None and decl.max <= 1 and len(vs) > 1:
                 raise SchemaError('element %s is not repeatable in the schema but the declared type has max_occurs>1' % decl.name)
-            if len(vs) < decl.min:
+            if len(vs) < decl.min and not self.lenient:
                 raise NotDenotable('%d occurrences of %s, schema minOccurs=%d' % (len(vs), decl.name, decl.min))
             for x in vs:
                 self._emit_one(parent, decl, _single(t), x)
@@ -378,7 +383,17 @@ class Codec(object):
         self._emit_one(parent, decl, t, v)
 
     def _emit_one(self, parent, decl, t, v):
+        from vf.ref import special
         t = _strip(t)
+        if v is special.Absent:
+            return
+        if v is special.Nil:
+            etree.SubElement(parent, decl.tag).set(q(XSI, 'nil'), 'true')
+            return
+        if isinstance(v, special.Repeat):
+            for x in v.values:
+                self._emit_one(parent, decl, t, x)
+            return
         if v is None:
             if decl.min == 0:
                 return
@@ -449,6 +464,9 @@ class Codec(object):
                     continue
                 used.add(an)
                 fv = v.f.get(an)
+                from vf.ref import special
+                if fv is special.Absent or fv is special.Nil:
+                    continue
                 if fv is None:
                     if use == 'required':
                         raise NotDenotable('None for required attribute %s' % an)
